@@ -23,7 +23,7 @@ func ScanPngHeader(r io.ReadSeeker) (header meta.ExifHeader, err error) {
 	buf := make([]byte, 8)
 
 	var n int
-	n, err = r.Read(buf)
+	n, err = io.ReadFull(r, buf)
 	if err != nil {
 		return
 	}
@@ -36,7 +36,7 @@ func ScanPngHeader(r io.ReadSeeker) (header meta.ExifHeader, err error) {
 
 	for {
 		// 5.3 Chunk layout
-		n, err = r.Read(buf)
+		n, err = io.ReadFull(r, buf)
 		if err != nil {
 			break
 		}
